@@ -7,6 +7,7 @@
    in force is not negative (0 <= eff_max_cycles); C19_negative_max_cycles shows what happens below 0. *)
 From Coq Require Import ZArith List.
 From PV Require Import Gen.DomainConst Gen.CheckConst Cli.Gate Cli.GateProofs Cli.GateMono Cli.GateLines Cli.GateRun Cli.GateSpecB Tie.GateTie.
+From PV Require Import Cli.GateRoots Cli.GateRootsProofs Cli.FileSel Cli.FileResolve Cli.FileResolveProofs.
 Import ListNotations.
 Open Scope Z_scope.
 
@@ -131,6 +132,43 @@ Theorem gate_only_max_complexity_key : forall i j,
   o_exit (run_check i) = o_exit (run_check j).
 Proof. exact gate_only_max_complexity_key_lemma. Qed.
 
+(* several targets, dependency step (cmd/pyscn/check.go checkCircularDependencies; was finding C19-G1: only the first
+   target was looked at).  Every target lies in (or is) one of the project roots the cycles are looked for in ... *)
+Theorem deps_every_target_covered : forall cwd ts t, In t ts ->
+  exists r, In r (dependency_project_roots cwd ts) /\ is_prefix r t = true.
+Proof. exact roots_cover. Qed.
+
+(* ... the roots are targets ... *)
+Theorem deps_roots_are_targets : forall cwd ts r, ts <> [] -> In r (dependency_project_roots cwd ts) -> In r ts.
+Proof. exact roots_are_targets. Qed.
+
+(* ... and no root is named twice or lies inside another root: no cycle is counted through two roots *)
+Theorem deps_roots_disjoint : forall cwd ts,
+  NoDup (dependency_project_roots cwd ts) /\
+  forall r r', In r (dependency_project_roots cwd ts) -> In r' (dependency_project_roots cwd ts) ->
+               is_prefix r r' = true -> r = r'.
+Proof. exact roots_antichain. Qed.
+
+(* the step over the roots is the dependency step of the model above on the merged results: the cycles of all roots
+   together, an error as soon as one root cannot be analysed *)
+Theorem deps_roots_merged : forall f rs, existsb r_deps_err rs = false ->
+  match check_circular f (merge_deps rs) with
+  | Some (n, ls) => check_circular_roots f rs = (Some n, ls)
+  | None => False
+  end.
+Proof. exact check_circular_roots_merged. Qed.
+
+Theorem deps_roots_failed : forall f rs, existsb r_deps_err rs = true ->
+  fst (check_circular_roots f rs) = None /\ check_circular f (merge_deps rs) = None.
+Proof. exact check_circular_roots_failed. Qed.
+
+(* several targets, every analysis (app.ResolveFilePaths; was finding C19-G2: a plain file named twice among plain-file
+   targets was analysed once per mention): whichever way the targets are turned into files, each file is there once *)
+Theorem targets_each_file_once : forall w cwd ts rec inc exc v out,
+  resolve_file_paths w cwd ts rec inc exc v = Some out ->
+  NoDup (map (fun p => segs (abs cwd p)) out).
+Proof. exact resolve_each_once. Qed.
+
 (* the boolean specification the harness evaluates is gate_spec *)
 Theorem gate_spec_b_correct : forall i, gate_spec_b i = true <-> gate_spec i.
 Proof. exact gate_spec_b_iff. Qed.
@@ -162,3 +200,9 @@ Print Assumptions target_config_wins.
 Print Assumptions gate_only_max_complexity_key.
 Print Assumptions gate_spec_b_correct.
 Print Assumptions gate_examples.
+Print Assumptions deps_every_target_covered.
+Print Assumptions deps_roots_are_targets.
+Print Assumptions deps_roots_disjoint.
+Print Assumptions deps_roots_merged.
+Print Assumptions deps_roots_failed.
+Print Assumptions targets_each_file_once.
